@@ -24,8 +24,9 @@ VARIABLE cfg
 KeV   == 100000
 EMass == 51099906
 
-Wins == {"none", "valid", "inverted", "beyond", "lower", "upper"}
+Wins == {"none", "valid", "inverted", "beyond", "lower", "upper", "empty"}
   \* beyond: min < max but the whole window lies above the available energy
+  \* empty: min = max (no interval at all)
   \* lower / upper: only that bound is given (the other one is left undefined and keeps the engine's default): still a window
 OpenWins == {"valid", "lower", "upper"}
 
